@@ -61,6 +61,14 @@ package utils
 //@   ensures !result0 ==> (exists x string :: matchedOn(vm, x) && canHave(ls, x) && !canHave(rs, x))
 //@   ensures vm.On && len(vm.MatchingLabels) == 0 ==> result0
 
+// One operand can be an `or` of several alternatives: the partner is only unmatched if it cannot be joined with any.
+//@ spec func cannotJoin(ls Source, rs Source, vm *promParser.VectorMatching) bool = exists x string :: matchedOn(vm, x) && canHave(ls, x) && !canHave(rs, x)
+//@ func canJoinAny [C12]
+//@   requires vm != nil
+//@   ensures !result ==> (forall j int :: 0 <= j && j < len(srcs) ==> cannotJoin(srcs[j], rs, vm))
+//@   loop 1 invariant 0 <= iter1 && iter1 <= len(srcs)
+//@   loop 1 invariant forall j int :: 0 <= j && j < iter1 ==> cannotJoin(srcs[j], rs, vm)
+
 // Well-formed source: the three label lists are duplicate-free and do not share a backing array with one another
 // (appendToSlice may write into the spare capacity of the list it extends).
 //@ spec func sep(a []string, b []string) bool = cap(a) == 0 || cap(b) == 0 || !sameArray(a, b)
@@ -303,6 +311,11 @@ package utils
 //@   at call calculateStaticReturn#2 assert [C12] cmpHolds(arg3, arg1.ReturnedNumber, arg2.ReturnedNumber) == cmpHolds(n.Op, s.ReturnedNumber, rs.ReturnedNumber)
 //@   at call calculateStaticReturn#2 assert [C12] isCmp(arg3) == isCmp(n.Op) && arg4 == s.IsDead
 //@   at call calculateStaticReturn#2 assert [C12] s.AlwaysReturns && rs.AlwaysReturns && s.KnownReturn && rs.KnownReturn
+// a join partner is declared unmatched only if no alternative of the other operand can be joined with it
+//@   at store IsDead#7 assert [C12] forall j int :: 0 <= j && j < len(lhs) ==> cannotJoin(lhs[j], rs, n.VectorMatching)
+//@   at store IsDead#5 assert [C12] forall j int :: 0 <= j && j < len(rhs) ==> cannotJoin(rhs[j], ls, n.VectorMatching)
+//@   at store IsDead#4 assert [C12] forall j int :: 0 <= j && j < len(lhs) ==> cannotJoin(lhs[j], rs, n.VectorMatching)
+//@   at store IsDead#2 assert [C12] forall j int :: 0 <= j && j < len(lhs) ==> cannotJoin(lhs[j], rs, n.VectorMatching)
 //@   at call canJoin#1 assert [C12] sameLists(arg0, r4[iter3-1]) && arg0.FixedLabels == r4[iter3-1].FixedLabels
 //@   at call canJoin#2 assert [C12] sameLists(arg0, r6[iter6-1]) && arg0.FixedLabels == r6[iter6-1].FixedLabels
 //@   at call canJoin#3 assert [C12] sameLists(arg0, r8[iter8-1]) && arg0.FixedLabels == r8[iter8-1].FixedLabels
